@@ -7,6 +7,7 @@ import (
 	"fmt"
 	"html"
 	"math"
+	"math/big"
 	"net/url"
 	"reflect"
 	"regexp"
@@ -147,9 +148,7 @@ func AddStandardFilters(fd FilterDictionary) { //nolint: gocyclo
 		}
 	})
 	fd.AddFilter("round", func(n float64, places func(int) int) float64 {
-		pl := places(0)
-		exp := math.Pow10(pl)
-		return math.Floor(n*exp+0.5) / exp
+		return roundHalfUp(n, places(0))
 	})
 
 	// sequence filters
@@ -257,6 +256,28 @@ func AddStandardFilters(fd FilterDictionary) { //nolint: gocyclo
 	fd.AddFilter("type", func(value any) string {
 		return fmt.Sprintf("%T", value)
 	})
+}
+
+// roundHalfUp rounds n half up to the given number of decimal places. It works
+// on the exact value of n: scaling a large float by a power of ten in float64
+// arithmetic loses digits (1000000000000000.5 | round: 1 gave …000.375).
+func roundHalfUp(n float64, places int) float64 {
+	if math.IsNaN(n) || math.IsInf(n, 0) || places > 1100 {
+		// no float64 has more than 1074 fractional digits
+		return n
+	}
+	if places < -400 {
+		return 0
+	}
+	scale := new(big.Rat).SetInt(new(big.Int).Exp(big.NewInt(10), big.NewInt(int64(max(places, -places))), nil))
+	x := new(big.Rat).SetFloat64(n)
+	if places < 0 {
+		scale.Inv(scale)
+	}
+	x.Add(x.Mul(x, scale), big.NewRat(1, 2))
+	floor := new(big.Int).Div(x.Num(), x.Denom()) // Euclidean division: rounds down, as the denominator is positive
+	f, _ := x.SetInt(floor).Quo(x, scale).Float64()
+	return f
 }
 
 func joinFilter(a []any, sep func(string) string) any {
